@@ -170,7 +170,8 @@ def dfdt(rc: RuleCtx, rule_range: Optional[str], rule_crit: Optional[str], rule_
     good_step = isinstance(knee_new, Rat) and knee_new.sub(sym(cut)).equals(want_knee.sub(sym(cut)))
     cut_new = outb.env.get(cut)
     want_cut = anf.opaque("int", anf.opaque("ceil", knee_new / C(2), array=False), array=False) if isinstance(knee_new, Rat) else None
-    last = [nme for nme in stored_names(loop) if nme not in (kname, cut) and nme in env]
+    from .common import log_only_local
+    last = [nme for nme in stored_names(loop) if nme not in (kname, cut) and nme in env and not log_only_local(fi, nme)]
     if rule_crit:
         ok = good_step and isinstance(cut_new, Rat) and want_cut is not None and (cut_new.equals(want_cut) or cut_new.equals(anf.opaque("ceil", knee_new / C(2), array=False)))
         if ok:
